@@ -150,7 +150,11 @@ class Socket(base_socket.BaseSocket):
             return self.server._bad_request()
         ws = self.server._async['websocket'](
             self._websocket_handler, self.server)
-        return ws(environ, start_response)
+        try:
+            return ws(environ, start_response)
+        finally:
+            # the upgrade is over, regardless of how it ended
+            self.upgrading = False
 
     def _websocket_handler(self, ws):
         """Engine.IO handler for websocket transport."""
